@@ -190,7 +190,7 @@ theorem transpiled_int_dec (neg : Bool) (ds : Text) (h1 : ds ≠ []) (h2 : ds.al
     (h3 : ds.length ≤ maxDigits) :
     transpiledInt (signText neg ++ ds) = intOfLit (signText neg ++ ds) := by
   obtain ⟨z1, z2, z3, _, z5, z6⟩ := dropZeros_spec ds h2
-  unfold transpiledInt
+  apply transpiledInt_eq
   rw [normIntText_dec neg ds h1 h2,
     pyIntLiteral_dec neg _ z1 z2 z3 (Nat.le_trans (z5 h1) h3), z6, intOfLit_dec neg ds h1 h2 h3]
   rfl
@@ -198,25 +198,28 @@ theorem transpiled_int_dec (neg : Bool) (ds : Text) (h1 : ds ≠ []) (h2 : ds.al
 /-- … and EVERY hexadecimal spelling -/
 theorem transpiled_int_hex (neg : Bool) (ds : Text) (h1 : ds ≠ []) (h2 : ds.all isHex = true) :
     transpiledInt (signText neg ++ [48, 120] ++ ds) = intOfLit (signText neg ++ [48, 120] ++ ds) := by
-  unfold transpiledInt
+  apply transpiledInt_eq
   rw [normIntText_hex, pyIntLiteral_hex neg ds h1 h2, intOfLit_hex neg ds h1 h2]
   rfl
 
 theorem transpiled_uint_dec (ds : Text) (h1 : ds ≠ []) (h2 : ds.all isDigit = true) (h3 : ds.length ≤ maxDigits) :
     transpiledUint ds = uintOfLit ds := by
-  rw [transpiledUint_dec ds h1 h2 h3, uintOfLit_dec ds h1 h2 h3]
+  apply transpiledUint_eq
+  rw [pasted_uint_dec ds h1 h2 h3, uintOfLit_dec ds h1 h2 h3]
 
 theorem transpiled_uint_hex (ds : Text) (h1 : ds ≠ []) (h2 : ds.all isHex = true) :
     transpiledUint ([48, 120] ++ ds) = uintOfLit ([48, 120] ++ ds) := by
-  rw [transpiledUint_hex ds h1 h2, uintOfLit_hex ds h1 h2]
+  apply transpiledUint_eq
+  rw [pasted_uint_hex ds h1 h2, uintOfLit_hex ds h1 h2]
 
 /-- why the normalisation is needed: the raw text `007` is not a Python literal -/
 example : pyIntLiteral [48, 48, 55] = .error .syntaxError ∧ pyIntLiteral (normIntText [48, 48, 55]) = .ok 7 := by
   constructor <;> rfl
 
-/-- recorded difference (not claimed by the property: CEL has no signed uint literal): `-0x0u` is an
-error in the interpreter (`int("-0x0")`) and `0u` in the compiled runner -/
-example : uintOfLit [45, 48, 120, 48] = .error .valueError ∧ transpiledUint [45, 48, 120, 48] = .ok 0 := by
+/-- formerly a recorded runner difference: `-0x0u` is an error in the interpreter (`int("-0x0")`) and was
+`0u` in the compiled runner; since /repo 50c913c the transpiler converts the token like the interpreter
+first, so both runners report the error -/
+example : uintOfLit [45, 48, 120, 48] = .error .valueError ∧ transpiledUint [45, 48, 120, 48] = .error .valueError := by
   constructor <;> rfl
 
 /-! #### "UTF-8 for unescaped characters" -/
